@@ -220,6 +220,15 @@ pub fn substitute_and_on_stackpointer(project: &mut Project) -> Option<Vec<LogMe
                             continue 'sub_loop;
                         }
                     }
+                } else if let Def::Load { var, .. } = &def.term {
+                    if *var == project.stack_pointer_register {
+                        // Lost track of SP
+                        log.push(
+                            LogMessage::new_info("Unexpected assignment on SP")
+                                .location(def.tid.clone()),
+                        );
+                        continue 'sub_loop;
+                    }
                 }
             }
         }
